@@ -200,7 +200,12 @@ func (c *concReader) seek(offset int64, whence int, limit int64) (int64, error) 
 	if limit > c.decompressedSize {
 		limit = c.decompressedSize
 	}
-	c.posLimit = limit
+	if c.posLimit != limit {
+		// The region of interest changed, even if its start did not. Any
+		// work-in-progress was for the old region.
+		c.posLimit = limit
+		c.seekResolved = false
+	}
 
 	return pos, nil
 }
